@@ -42,7 +42,7 @@ type APIOp struct {
 	Arg     int
 	N       int
 	DelayUs int
-	// CancelUs > 0 (Start ops): the context handed to Start is cancelled that many µs after the call was issued.
+	// CancelUs > 0 (Start and Submit ops): the context handed to the call is cancelled that many µs after it was issued.
 	CancelUs int `json:",omitempty"`
 }
 
@@ -206,8 +206,23 @@ func RunAPI(h *APIHistory, res *vprop.Result) {
 			}
 			plan := l.BuildPlan(op.Plan)
 			guard("Submit", func() {
-				id, err := ws.Submit(ctx, plan)
+				// CancelUs > 0: the context handed to Submit ends that many µs after the call was issued — possibly while
+				// the plan is being written. Submit may then legitimately fail (the plan stays unknown); it must not panic.
+				sctx := stdctx.Context(ctx)
+				if op.CancelUs > 0 {
+					c, cancelSubmit := stdctx.WithCancel(ctx)
+					defer cancelSubmit()
+					tm := time.AfterFunc(time.Duration(op.CancelUs)*time.Microsecond, cancelSubmit)
+					defer tm.Stop()
+					sctx = c
+					res.Label("submit-ctx-cancelled")
+				}
+				id, err := ws.Submit(sctx, plan)
 				l.api(EvSubmitRet, op.Plan, err)
+				if err != nil && op.CancelUs > 0 {
+					res.Label("submit-ctx-cancelled:refused")
+					return
+				}
 				if err != nil {
 					mu.Lock()
 					if !failed {
